@@ -165,6 +165,22 @@ pub fn run(ctx: &mut Ctx, c: &Case) -> (String, String) {
             let x = c.bytes("x");
             let y = c.bytes("y");
             let xs = ctx.hay.place(&x, c.num("ax"), flush_of(c.num("fx")));
+            if !c.str("al").is_empty() {
+                // aliasing operands: y is the sub-slice of x's own buffer starting at offset `al`
+                // (the case line still spells y out for the model and the oracle). The two regions
+                // overlap, so the load trace is not attributed to operands: results only.
+                let off = c.num("al");
+                if off + y.len() > xs.len() || xs[off..off + y.len()] != y[..] {
+                    return ("BadCase".to_string(), "-".to_string());
+                }
+                let ys = &xs[off..off + y.len()];
+                let b = catch_unwind(AssertUnwindSafe(|| match c.op {
+                    "iseq" => all::is_equal(xs, ys),
+                    "ispre" => all::is_prefix(xs, ys),
+                    _ => all::is_suffix(xs, ys),
+                }));
+                return (b.map(|b| b.to_string()).unwrap_or("Panic".to_string()), "?".to_string());
+            }
             let ys = ctx.needle.place(&y, c.num("ay"), flush_of(c.num("fy")));
             record(xs, ys, || {
                 let b = match c.op {
@@ -353,10 +369,26 @@ pub fn run(ctx: &mut Ctx, c: &Case) -> (String, String) {
             let x = c.bytes("x");
             let h = c.bytes("h");
             let hs = ctx.hay.place(&h, c.num("a"), flush_of(c.num("fl")));
-            let xs = ctx.needle.place(&x, c.num("an"), flush_of(c.num("fln")));
             let f = c.str("f").to_string();
             let cfg = c.str("cfg").to_string();
             let rk = ranker(c.str("rank"));
+            if !c.str("al").is_empty() {
+                // the needle is a sub-slice of the haystack itself (results only, see iseq)
+                let off = c.num("al");
+                if off + x.len() > hs.len() || hs[off..off + x.len()] != x[..] {
+                    return ("BadCase".to_string(), "-".to_string());
+                }
+                let xs = &hs[off..off + x.len()];
+                let r = catch_unwind(AssertUnwindSafe(|| match f.as_str() {
+                    "top" => opt(memchr::memmem::find(hs, xs)),
+                    "rtop" => opt(memchr::memmem::rfind(hs, xs)),
+                    "find" => opt(build_finder(&cfg, rk, xs).find(hs)),
+                    "rfind" => opt(memchr::memmem::FinderRev::new(xs).rfind(hs)),
+                    _ => "BadCase".to_string(),
+                }));
+                return (r.unwrap_or("Panic".to_string()), "?".to_string());
+            }
+            let xs = ctx.needle.place(&x, c.num("an"), flush_of(c.num("fln")));
             record(hs, xs, || match f.as_str() {
                 "top" => opt(memchr::memmem::find(hs, xs)),
                 "rtop" => opt(memchr::memmem::rfind(hs, xs)),
